@@ -210,7 +210,7 @@ class Chain:
 
     Node ids are chosen so that lexicographic and numeric order differ (s10 < s9 lexicographically)."""
 
-    def __init__(self, blocks, chrom="chr1", id_base=0, hap="hA#1#c", decl="fwd", so_base=0, ends=("tip", "tip")):
+    def __init__(self, blocks, chrom="chr1", id_base=0, hap="hA#1#c", decl="fwd", so_base=0, ends=("tip", "tip"), scaffold_len=2):
         self.blocks = list(blocks)
         self.chrom = chrom
         self.decl = decl
@@ -222,15 +222,16 @@ class Chain:
         self._hso = 100
         self._nl = 0
         self.hap = hap
+        self.scaffold_len = scaffold_len
         # left end: the end node of a chain is never an articulation point; it is an inner node of the end block
         tip = self._ref(2)
         first = None
         if ends[0] == "tip":
-            first = self._ref(2)
+            first = self._ref(self.scaffold_len)
             self._link(tip, "+", first, "+")
             self.order += [("b", frozenset([tip])), ("s", first)]
         else:  # "open": the end node starts a bubble (as s1 in tests/data/smallgraph.gfa)
-            first = self._ref(2)
+            first = self._ref(self.scaffold_len)
             x = self._hapseg(2)
             self._link(tip, "+", first, "+")
             self._link(tip, "+", x, "+")
@@ -277,13 +278,13 @@ class Chain:
 
     def _block(self, kind, left):
         if kind == "link":
-            right = self._ref(2)
+            right = self._ref(self.scaffold_len)
             self._link(left, "+", right, "+")
             self.order.append(("s", right))
             return right
         if kind == "snp":
             a = self._ref(1)
-            right = self._ref(2)
+            right = self._ref(self.scaffold_len)
             b = self._hapseg(1)
             for x in (a, b):
                 self._link(left, "+", x, "+")
@@ -292,7 +293,7 @@ class Chain:
             return right
         if kind == "insertion":
             # reference goes left->right directly, haplotype inserts a node: the bubble has one inner node
-            right = self._ref(2)
+            right = self._ref(self.scaffold_len)
             b = self._hapseg(2)
             self._link(left, "+", right, "+")
             self._link(left, "+", b, "+")
@@ -301,7 +302,7 @@ class Chain:
             return right
         if kind == "deletion":
             a = self._ref(2)
-            right = self._ref(2)
+            right = self._ref(self.scaffold_len)
             self._link(left, "+", a, "+")
             self._link(a, "+", right, "+")
             self._link(left, "+", right, "+")
@@ -309,7 +310,7 @@ class Chain:
             return right
         if kind == "triallelic":
             a = self._ref(1)
-            right = self._ref(2)
+            right = self._ref(self.scaffold_len)
             b = self._hapseg(1)
             c = self._hapseg(2, 2)
             for x in (a, b, c):
@@ -320,7 +321,7 @@ class Chain:
         if kind == "twoseg":
             a1 = self._ref(1)
             a2 = self._ref(1)
-            right = self._ref(2)
+            right = self._ref(self.scaffold_len)
             b = self._hapseg(2)
             self._link(left, "+", a1, "+")
             self._link(a1, "+", a2, "+")
@@ -333,7 +334,7 @@ class Chain:
             a1 = self._ref(1)
             a2 = self._ref(1)
             a3 = self._ref(1)
-            right = self._ref(2)
+            right = self._ref(self.scaffold_len)
             b = self._hapseg(1)
             c = self._hapseg(3, 2)
             self._link(left, "+", a1, "+")
@@ -350,7 +351,7 @@ class Chain:
             # the middle reference node can also be traversed reversed; as an undirected graph this is a path
             # left - a - right with parallel links, so a is itself a scaffold node (articulation point)
             a = self._ref(2)
-            right = self._ref(2)
+            right = self._ref(self.scaffold_len)
             self._link(left, "+", a, "+")
             self._link(a, "+", right, "+")
             self._link(left, "+", a, "-")
